@@ -2322,7 +2322,12 @@ int32_t tls13EncodeAlert(ssl_t *ssl,
     {
         if (rc == SSL_FULL)
         {
-            *requiredLen = messageSize;
+            /* What the record can need at most: header, body, inner type,
+               tag and the configured padding (block or fixed). A figure
+               that is too small makes the caller give up instead of
+               enlarging the buffer, and the fatal alert is never sent. */
+            *requiredLen = messageSize + 1 + TLS_GCM_TAG_LEN +
+                ssl->tls13BlockSize + ssl->tls13PadLen;
         }
         return rc;
     }
